@@ -4215,7 +4215,7 @@ int CLUFactor<R>::solveUpdateLeft(R eps, R* vec, int* nonz, int n)
       y = vec[k];
       StableSum<R> tmp(-y);
 
-      for(j = lbeg[i + 1]; j > k; --j)
+      for(j = lbeg[i + 1]; j > lbeg[i]; --j)
       {
          assert(*idx >= 0 && *idx < thedim);
          tmp += vec[*idx++] * (*val++);
